@@ -58,7 +58,7 @@ LI = {
  'C12': "bid128_copy, bid128_negate, bid128_abs, bid128_copy_sign = the model for all patterns",
  'C13': "the seven is_* predicates, is_normal, is_subnormal and bid128_class = the model for all 2^128 patterns (table indices in range)",
  'C16': "34 shared multi-word helpers of bid_internal.rs, each exact for all inputs; thorough tier: bid128_minnum, bid128_maxnum, bid128_minnum_mag, bid128_maxnum_mag each return, for all operand words and every status word, an outcome of the model's acceptance list m_minmax (complete theorems, 12 CPU-minutes)",
- 'C17': "bid128_nextup = m_next_up and bid128_nextdown = m_next_down for every 128-bit pattern and every status word (result and flags); thorough tier: partial theorems for nextafter / nexttoward (NaN operands; nexttoward = nextafter for all inputs)",
+ 'C17': "bid128_nextup = m_next_up and bid128_nextdown = m_next_down for every 128-bit pattern and every status word (result and flags); thorough tier: bid128_nextafter and bid128_nexttoward return, for all operand words and every status word, an outcome of the model's acceptance list m_next_after with the model's flags (complete theorems, 5-7 minutes)",
  'C18': "bid128_total_order and bid128_total_order_mag = m_total_order / _mag for all 2^128 x 2^128 patterns",
  'C19': "bid_to_dpd128 and bid_dpd_to_bid128 = the model's DPD codec for all 2^128 words (1000 + 1024 table rows taken from the source text)",
 }
